@@ -221,6 +221,7 @@ func init() {
 			{"part-from-registry", "regenerated styles/numbering parts contain every registry entry (unfiltered range loop)", rulePartFromRegistry("stylesXML", "Numbering")},
 			{"clone-cover (registries)", "the per-document note and numbering registries are copied field by field when a document is derived from another (a flag or counter left behind desynchronises ids and parts)", filtered(ruleCloneDocument, "FootnoteManager", "NumberingManager")},
 			{"registry-key-fresh", "ids under which notes and numbering instances are registered come from a counter of the registry, never from its current size", ruleRegistryKeyFresh},
+			{"save-sibling", "both package producers (Save and ToBytes) run the same part-regenerating calls: a part flushed by only one of them is stale in the other's output", ruleSaveSibling},
 		},
 		Assumptions: append([]string{"unbounded integer parts of a style-id pattern are expanded over heading/TOC levels 1..9"}, commonAssumptions...),
 	}
@@ -251,6 +252,7 @@ func init() {
 			{"counter-monotonic", "note and numbering id counters only ever increase", ruleCounterMonotonic("FootnoteManager", "NumberingManager")},
 			{"item-config-flow", "each list item's numbering comes from that item's own configuration on every path", ruleItemConfigFlow},
 			{"registry-key-fresh", "ids under which notes and numbering instances are registered come from a counter of the registry, never from its current size", ruleRegistryKeyFresh},
+			{"save-sibling", "both package producers (Save and ToBytes) run the same part-regenerating calls (notes and numbering parts flushed by only one of them are stale in the other's output)", ruleSaveSibling},
 			{"heading-per-element", "whether a heading becomes a TOC entry depends on that heading and the requested level only (no loop-carried filter in the collecting loops)", ruleHeadingPerElement},
 			{"clone-cover (registries)", "the per-document note and numbering registries are copied field by field when a document is derived from another", filtered(ruleCloneDocument, "FootnoteManager", "NumberingManager")},
 		},
@@ -316,6 +318,7 @@ func init() {
 			{"softbreak-space", "a true SoftLineBreak() always leads to the emission of a space (must-pass-through)", ruleSoftBreakSpace},
 			{"fixpoint-progress", "rewrite-until-no-match loops make progress: the replacement callback never returns its argument unchanged on a feasible path", ruleFixpointProgress},
 			{"source-agree", "the renderer reads node text from the very buffer that was parsed (same SSA value)", ruleSourceAgree},
+			{"segment-value", "segment text is read through Segment.Value (padding of indented code kept), never cut out of the source by raw offsets", ruleSegmentValue},
 		},
 		Assumptions: append([]string{"goldmark v1.7.8 node set; classification table in the checker (one reason per kind)"}, commonAssumptions...),
 	}
